@@ -34,7 +34,10 @@ def mk_descs(rng, n, **kw):
              'lenreq': rng.random() < 0.5, 'hostile': kw.get('hostile', 0.0), 'with_close': kw.get('with_close', False),
              'steps': rng.randint(*kw.get('steps', (3, 14))), 'frag': kw.get('frag', 0.0),
              'close_mode': kw.get('close_mode'), 'garbage': kw.get('garbage', 0.0), 'race': kw.get('race', 0.0),
-             'on_close_raises': kw.get('on_close_raises', False), 'app_raises_at_close': kw.get('app_raises_at_close', False)}
+             'on_close_raises': kw.get('on_close_raises', False), 'app_raises_at_close': kw.get('app_raises_at_close', False),
+             'out_frag': kw.get('out_frag', False)}
+        if callable(d['out_frag']):
+            d['out_frag'] = d['out_frag'](rng)
         if callable(d['app_raises_at_close']):
             d['app_raises_at_close'] = d['app_raises_at_close'](rng)
         if callable(d['on_close_raises']):
@@ -51,7 +54,7 @@ def run_desc(d, post=None):
     sc = Scenario(random.Random(d['seed']), role=d['role'], lenreq=d['lenreq'], hostile=d['hostile'],
                   with_close=d['with_close'], steps=d['steps'], frag=d.get('frag', 0.0), close_mode=d.get('close_mode'),
                   garbage=d.get('garbage', 0.0), race=d.get('race', 0.0), on_close_raises=d.get('on_close_raises', False),
-                  app_raises_at_close=d.get('app_raises_at_close', False))
+                  app_raises_at_close=d.get('app_raises_at_close', False), out_frag=d.get('out_frag', False))
     sc.post = post
     sc.desc = d
     if post is None:
